@@ -151,8 +151,9 @@ Definition tcp_read_some (s : Z) (bufs : list Z) (w : net) : Z * list Z * net :=
       end
   end.
 
+Definition dg (data : list Z) : Z := match data with [] => 0 | _ => digest data end.
 Definition read_args (e : Z) (data : list Z) : list Z :=
-  [e; Z.of_nat (length data); Z.of_nat (length data); digest data].
+  [e; Z.of_nat (length data); Z.of_nat (length data); dg data].
 
 (* async_read_some_impl *)
 Definition tcp_async_read_impl (s : Z) (bufs : list Z) (h : Z) (w : net) : net * list kc :=
@@ -163,7 +164,8 @@ Definition tcp_async_read_impl (s : Z) (bufs : list Z) (h : Z) (w : net) : net *
   else if negb (e =? EC_OK) then
     (set_tcp w s (t <| t_recv_h := None |> <| t_recv_buf := [] |>), [KPost (TUser h [e; 0; 0; 0])])
   else
-    (set_tcp w s (t <| t_recv_h := None |> <| t_recv_buf := [] |>), [KPost (TUser h (read_args EC_OK data))]).
+    (set_tcp w s (t <| t_recv_h := None |> <| t_recv_buf := [] |>),
+     [KPost (TUser h (read_args EC_OK data ++ (if h <? 0 then data else [])))]).
 
 (* available(ec): (error, bytes) *)
 Fixpoint avail_loop (q : list packet) (acc : Z) : Z * Z :=
@@ -277,10 +279,11 @@ Definition tcp_maybe_wakeup_writer (cx : ctx) (s : Z) (w : net) : net * list kc 
   end.
 
 (* tcp::socket::packet_dropped *)
-Definition tcp_packet_dropped (s : Z) (p : packet) (w : net) : net * list kc :=
+Definition tcp_packet_dropped (v : variant) (s : Z) (p : packet) (w : net) : net * list kc :=
   let t := get_tcp w s in
   match t_chan t with
-  | None => (w, [KLog (TAG_FUEL, [5])])      (* null channel dereferenced *)
+  | None => if d11a_drop_guard v then (w, [])
+            else (w, [KLog (TAG_FUEL, [5])])      (* null channel dereferenced *)
   | Some ci =>
       let c := get_chan w ci in
       let p' := set_hops (set_drop p None) (chan_hops c (remote_idx c (t_bound t))) in
@@ -505,7 +508,7 @@ Definition udp_receive_from (cx : ctx) (s : Z) (bufs : list Z) (w : net) : Z * l
   end.
 
 Definition recv_args (e : Z) (data : list Z) (want : bool) (from : endpoint) : list Z :=
-  [e; Z.of_nat (length data); Z.of_nat (length data); digest data] ++ (if want then ep_fields from else []).
+  [e; Z.of_nat (length data); Z.of_nat (length data); dg data] ++ (if want then ep_fields from else []).
 
 Definition udp_async_recv_impl (cx : ctx) (s : Z) (bufs : list Z) (want : bool) (h : Z) (w : net) : net * list kc :=
   let '(e, data, from, w) := udp_receive_from cx s bufs w in
@@ -597,11 +600,11 @@ Definition deliver (cx : ctx) (tgt : option objref) (p : packet) (w : net) : net
   end.
 
 (* a drop callback is invoked; it was moved out of the packet first *)
-Definition run_drop (p : packet) (w : net) : net * list kc :=
+Definition run_drop (v : variant) (p : packet) (w : net) : net * list kc :=
   match p_drop p with
   | None => (w, [])
   | Some (DUser id) => (w, [KLog (TAG_DROP, [id; ptype_code (p_type p); pkt_size p; p_seq p])])
-  | Some (DTcp s) => tcp_packet_dropped s p w
+  | Some (DTcp s) => tcp_packet_dropped v s p w
   end.
 
 (* nat::incoming_packet *)
@@ -636,7 +639,7 @@ Fixpoint forward (v : variant) (fuel : nat) (now : Z) (p : packet) (w : net) : n
                              | QArm t k => (w, [KExpiresAt (tid_queue h) t; KAsyncWait (tid_queue h) (fun _ => TQueue h k)])
                              | QPost k => (w, [KPost (TQueue h k)])
                              | QForward x => forward v f now x w
-                             | QDrop x => run_drop x w
+                             | QDrop x => run_drop v x w
                              end in
                            (w, cs ++ c))
                         outs (set_sink w h (SQueue q'), [])
@@ -645,7 +648,7 @@ Fixpoint forward (v : variant) (fuel : nat) (now : Z) (p : packet) (w : net) : n
           | SLossy vs =>
               if pkt_droppable p' then
                 match vs with
-                | 1 :: vs' => run_drop p' (set_sink w h (SLossy vs'))
+                | 1 :: vs' => run_drop v p' (set_sink w h (SLossy vs'))
                 | _ :: vs' => forward v f now p' (set_sink w h (SLossy vs'))
                 | [] => forward v f now p' w
                 end
@@ -670,7 +673,7 @@ Definition queue_task (v : variant) (now : Z) (s : Z) (k : qkind) (w : net) : ne
                      | QArm t k' => (w, [KExpiresAt (tid_queue s) t; KAsyncWait (tid_queue s) (fun _ => TQueue s k')])
                      | QPost k' => (w, [KPost (TQueue s k')])
                      | QForward x => forward v FWD_FUEL now x w
-                     | QDrop x => run_drop x w
+                     | QDrop x => run_drop v x w
                      end in
                    (w, cs ++ c))
                 outs (set_sink w s (SQueue q'), [])
@@ -790,6 +793,10 @@ Definition rslv_cancel (r : Z) (w : net) : net * list kc :=
 
 (* ================= the script interpreter ================= *)
 
+(* internal completion handlers of the composed operations *)
+Definition hid_wall (s : Z) : Z := - (1000 + 2 * s).
+Definition hid_rall (s : Z) : Z := - (1001 + 2 * s).
+
 Definition ret_line (code obj : Z) (vals : list Z) : kc := KLog (TAG_RET, code :: obj :: vals).
 
 Definition do_uop (v : variant) (now : Z) (o : uop) (w : net) : net * list kc :=
@@ -892,6 +899,15 @@ Definition do_uop (v : variant) (now : Z) (o : uop) (w : net) : net * list kc :=
   | UAccClose0 a =>
       if d13_acceptor_close v then acc_close cx a w else acc_abort_handlers a false w
   (* ---- resolver ---- *)
+  | UTcpWriteAll s seed total chunk h =>
+      let data := pat seed total in
+      let w := w <| w_wall := mset (w_wall w) s (mkWall data 0 chunk h) |> in
+      let (w, c0) := tcp_abort_send s w in
+      let (w, c1) := tcp_async_write_impl cx s [firstn (Z.to_nat chunk) data] (hid_wall s) w in (w, c0 ++ c1)
+  | UTcpReadAll s bufsize h =>
+      let w := w <| w_rall := mset (w_rall w) s (mkRall bufsize 0 1 0 h) |> in
+      let (w, c0) := tcp_abort_recv s w in
+      let (w, c1) := tcp_async_read_impl s [bufsize] (hid_rall s) w in (w, c0 ++ c1)
   | URslvNew r node => (set_rslv w r (mkRslv node []), [])
   | UResolve r n port h => rslv_resolve cx r n port h w
   | URslvCancel r => rslv_cancel r w
@@ -907,9 +923,52 @@ Fixpoint do_uops (v : variant) (now : Z) (os : list uop) (w : net) : net * list 
       (w2, c1 ++ c2)
   end.
 
-Definition run_user (v : variant) (now : Z) (h : Z) (args : list Z) (w : net) : net * list kc :=
+Definition run_script_handler (v : variant) (now : Z) (h : Z) (args : list Z) (w : net) : net * list kc :=
   let (w', c) := do_uops v now (mget [] (w_handlers w) h) w in
   (w', KLog (TAG_H, h :: args) :: c).
+
+(* the composed write: on (ec, n) continue with the rest or report (ec, total written) *)
+Definition wall_step (v : variant) (now : Z) (s : Z) (args : list Z) (w : net) : net * list kc :=
+  let st := mget (mkWall [] 0 0 0) (w_wall w) s in
+  match args with
+  | [e; n] =>
+      if negb (e =? EC_OK) then run_script_handler v now (wa_h st) [e; wa_done st] w
+      else
+        let rest := skipn (Z.to_nat n) (wa_rest st) in
+        let done := wa_done st + n in
+        let w := w <| w_wall := mset (w_wall w) s (mkWall rest done (wa_chunk st) (wa_h st)) |> in
+        match rest with
+        | [] => run_script_handler v now (wa_h st) [EC_OK; done] w
+        | _ =>
+            let (w, c0) := tcp_abort_send s w in
+            let (w, c1) := tcp_async_write_impl (mkcx v now) s [firstn (Z.to_nat (wa_chunk st)) rest] (hid_wall s) w in
+            (w, c0 ++ c1)
+        end
+  | _ => (w, [])
+  end.
+
+(* the composed read: the model carries the bytes of a completed read as
+   (ec, n, n, digest); the running digest needs the bytes themselves, so the
+   completion of a composed read carries them after the four standard fields *)
+Definition rall_step (v : variant) (now : Z) (s : Z) (args : list Z) (w : net) : net * list kc :=
+  let st := mget (mkRall 0 0 1 0 0) (w_rall w) s in
+  match args with
+  | e :: n :: _ :: _ :: data =>
+      if negb (e =? EC_OK) then
+        run_script_handler v now (ra_h st) [e; ra_total st; ra_c st * 65536 + ra_a st] w
+      else
+        let (a, c) := fold_left adler_step data (ra_a st, ra_c st) in
+        let w := w <| w_rall := mset (w_rall w) s (mkRall (ra_buf st) (ra_total st + n) a c (ra_h st)) |> in
+        let (w, c0) := tcp_abort_recv s w in
+        let (w, c1) := tcp_async_read_impl s [ra_buf st] (hid_rall s) w in
+        (w, c0 ++ c1)
+  | _ => (w, [])
+  end.
+
+Definition run_user (v : variant) (now : Z) (h : Z) (args : list Z) (w : net) : net * list kc :=
+  if 0 <=? h then run_script_handler v now h args w
+  else if Z.even h then wall_step v now ((- h - 1000) / 2) args w
+  else rall_step v now ((- h - 1001) / 2) args w.
 
 Definition sim_exec (v : variant) (t : task) (now : Z) (w : net) : net * list kc :=
   match t with
@@ -954,7 +1013,7 @@ Definition net0 : net :=
   {| w_sinks := []; w_next_sink := 1000000; w_handlers := []; w_nodes := []; w_in := []; w_out := [];
      w_route := []; w_mtu := 1475; w_mtus := []; w_hosts := []; w_tcp_reg := []; w_udp_reg := [];
      w_next_port := 2000; w_tcps := []; w_udps := []; w_chans := []; w_next_chan := 0; w_rslv := [];
-     w_pcap := None |}.
+     w_pcap := None; w_wall := []; w_rall := [] |}.
 
 (* visible trace *)
 Inductive vline := VLog (now : Z) (tag : Z) (fields : list Z) | VRet (now i n : Z) | VRun (now ret : Z) | VOutOfFuel.
